@@ -116,6 +116,32 @@ pub fn run_history(texts: &[String], kinds: &[ReaderKind], cfg: Cfg) -> Result<E
     Ok(root)
 }
 
+/// the same history, but the tree is rendered (unsorted and sorted, with the quick-xml preset and
+/// with another prefix / text identifier; results discarded) after every step before it is extended
+/// further. With `threads` the renderings happen on a fresh thread through a shared reference.
+pub fn run_history_rendering_between(texts: &[String], kinds: &[ReaderKind], cfg: Cfg, threads: bool) -> Result<Element<String>, (usize, String)> {
+    let kind = |i: usize| if kinds.is_empty() { ReaderKind::Str } else { kinds[i % kinds.len()] };
+    let render = |root: &Element<String>, i: usize| {
+        let work = |root: &Element<String>| {
+            let _ = root.to_serde_struct(&opts_qx(i % 2 == 1));
+            let _ = root.to_serde_struct(&opts("", "text_content", "Debug", i % 2 == 0));
+        };
+        if threads {
+            std::thread::scope(|s| {
+                let _ = std::thread::Builder::new().stack_size(32 << 20).spawn_scoped(s, || work(root)).expect("spawn").join();
+            });
+        } else {
+            work(root);
+        }
+    };
+    let mut root = parse_bytes(texts[0].as_bytes(), kind(0), cfg).map_err(|e| (0, e.to_string()))?;
+    for (i, t) in texts.iter().enumerate().skip(1) {
+        render(&root, i);
+        root = extend_bytes(t.as_bytes(), kind(i), cfg, root).map_err(|e| (i, e.to_string()))?;
+    }
+    Ok(root)
+}
+
 /// the same history, but every step runs on a freshly spawned thread and the tree is moved between
 /// them (Element<String> is Send): thread-affine state in the library would show
 pub fn run_history_across_threads(texts: &[String], kinds: &[ReaderKind], cfg: Cfg) -> Result<Element<String>, (usize, String)> {
